@@ -20,11 +20,15 @@ STREAM_FES = ("pandas", "numpy", "netcdf_obj", "netcdf_path", "xarray_obj", "xar
 
 
 def generate(rng, tier="quick"):
-    tbl = wl.gen_table(rng, max_n=24 if tier == "quick" else 40, no_time_p=0.06)
+    tbl = wl.gen_table(rng, max_n=24 if tier == "quick" else 40, no_time_p=0.06, unsorted_p=0.08)
     if rng.chance(0.12):
         tbl["xr_time"] = "var"
     cfg = wl.gen_config(rng, tbl, max_ctx=4, max_tests=3)
-    fes = rng.subset(STREAM_FES, 0.5, at_least=2)
+    pool = STREAM_FES
+    if tbl.get("unsorted"):
+        # label slices need a monotonic index: XarrayStream is not given rows out of chronological order
+        pool = tuple(f for f in STREAM_FES if not f.startswith("xarray"))
+    fes = rng.subset(pool, 0.5, at_least=2)
     if len(tbl["cols"]) == 1 and rng.chance(0.6):
         fes.append("qcconfig")
     scn = {
@@ -133,6 +137,8 @@ def execute(scn):
         bump("time_is_data_variable")
     if tbl.get("no_time"):
         bump("source_without_time_axis")
+    if tbl.get("unsorted"):
+        bump("rows_not_chronological")
     reps = rp.build_replicas(scn, shared)
     sch = rp.run_replicas(scn, reps)
     if sch.timeout:
@@ -339,7 +345,7 @@ EVIDENCE = {
     ],
     "stub": ["sim_probe QC function", "dirty allocator wrappers", "cooperative generator scheduler", "reference window model"],
     "assumptions": [
-        "times strictly increasing, whole seconds, naive (no tz); window bounds naive",
+        "times distinct, whole seconds, naive (no tz); window bounds naive; rows out of chronological order are not given to XarrayStream (label slices need a monotonic index)",
         "no two contexts of one config have the same (starting, ending) pair (they would be merged by Config.contexts)",
         "the reference execution passes float64 / datetime64[ns] ndarrays; PandasStream passes Series - a difference caused only by the carrier would be a C15 matter and is triaged before being reported",
     ],
